@@ -8,7 +8,8 @@ O4 == O3 + NWordPos
 O5 == O4 + NLastWord
 O6 == O5 + NLayouts
 O7 == O6 + NOneHot
-Count == O7 + NSweep
+O8 == O7 + NSweep
+Count == O8 + NPolyWords
 ItemAt(g) ==
   IF g <= O1 THEN CountsAt(g)
   ELSE IF g <= O2 THEN FlipsAt(g - O1)
@@ -17,7 +18,8 @@ ItemAt(g) ==
   ELSE IF g <= O5 THEN LastWordAt(g - O4)
   ELSE IF g <= O6 THEN LayoutAt(g - O5)
   ELSE IF g <= O7 THEN OneHotAt(g - O6)
-  ELSE SweepAt(g - O7)
+  ELSE IF g <= O8 THEN SweepAt(g - O7)
+  ELSE PolyWordAt(g - O8)
 Histories == IF "VERIF_TIER" \in DOMAIN IOEnv /\ IOEnv.VERIF_TIER = "thorough" THEN 300 ELSE 40
 VARIABLE n
 INSTANCE GenBase
